@@ -829,8 +829,8 @@ theorem remove_selected (db : Box S V) (sel : Sel) (strict : Bool)
   removeNames_eq db _ hnd hin
 
 /-- **rename**: distinct existing sources to distinct fresh targets -- the sources disappear, each target is bound to the value
-of its source (appended in the order of the pairs), every other entry stays where it is.  Targets that collide with existing
-names or with each other are executed strictly in sequence by the code (modelled; see notes/C19.md). -/
+of its source (appended in the order of the pairs), every other entry stays where it is.  (Targets that are existing names or
+sources: `rename_no_value_lost`.) -/
 theorem rename_fresh (db : Box S V) (src : Sel) (tgt : Tgt) (strict : Bool)
     (hs : ((resolvePairs (keys db) src tgt strict).map (·.1)).Nodup)
     (hin : ∀ p ∈ resolvePairs (keys db) src tgt strict, p.1 ∈ keys db)
@@ -851,17 +851,43 @@ theorem lay_applies_iff (o : SOps S) (db other : Box S V) (n : String) :
 example : layAct (V := Nat) ⟨fun (_ : Nat) => BFreq.I, (· + ·), (· + ·), fun a _ _ => a, (· + ·)⟩ [("x", .ser 1)] [("x", .ser 2)] "x"
     = .apply := by decide
 
-/-- **rename onto an existing name** (sequential `self[t] = self.pop(s)`): the source disappears, the target keeps its place and is
-re-bound to the source's value, its old value is lost, every other binding is unchanged -/
+/-- **no value is lost by `rename`** (swaps, chains, cycles, identities, targets onto existing names): all sources are popped
+first, then the targets are assigned in pair order -- so for distinct existing sources and distinct targets every target is
+bound, after the call, to the value its source had before it (a target that is also a source gets the value its partner HAD),
+every source that is not a target is gone, every other name is bound as before.  In particular the values bound to the
+targets after the call are exactly the values bound to the sources before it, in pair order. -/
+theorem rename_no_value_lost (db : Box S V) (src : Sel) (tgt : Tgt) (strict : Bool)
+    (hs : ((resolvePairs (keys db) src tgt strict).map (·.1)).Nodup)
+    (hin : ∀ p ∈ resolvePairs (keys db) src tgt strict, p.1 ∈ keys db)
+    (ht : ((resolvePairs (keys db) src tgt strict).map (·.2)).Nodup) :
+    ∃ r, rename db src tgt strict = .ok r
+      ∧ (∀ p ∈ resolvePairs (keys db) src tgt strict, lookup r p.2 = lookup db p.1)
+      ∧ ((resolvePairs (keys db) src tgt strict).map (fun p => lookup r p.2)
+          = (resolvePairs (keys db) src tgt strict).map (fun p => lookup db p.1))
+      ∧ (∀ n, n ∉ (resolvePairs (keys db) src tgt strict).map (·.2) →
+          lookup r n = if n ∈ (resolvePairs (keys db) src tgt strict).map (·.1) then none else lookup db n) := by
+  obtain ⟨r, h1, h2, h3⟩ := renamePairs_simultaneous db _ hs hin ht
+  exact ⟨r, h1, h2, List.map_congr_left h2, h3⟩
+
+/-- a swap, a chain, a cycle of three, an identity, a target onto an existing name: nothing is lost -/
+example : rename (S := Nat) (V := Nat) [("a", .ser 1), ("b", .ser 2), ("c", .ser 3), ("d", .ser 4)] (.names ["a", "b"]) (.names ["b", "a"]) false
+    = .ok [("c", .ser 3), ("d", .ser 4), ("b", .ser 1), ("a", .ser 2)] := by decide
+example : rename (S := Nat) (V := Nat) [("a", .ser 1), ("b", .ser 2), ("c", .ser 3), ("d", .ser 4)] (.names ["a", "b"]) (.names ["b", "z"]) false
+    = .ok [("c", .ser 3), ("d", .ser 4), ("b", .ser 1), ("z", .ser 2)] := by decide
+example : rename (S := Nat) (V := Nat) [("a", .ser 1), ("b", .ser 2), ("c", .ser 3), ("d", .ser 4)] (.names ["a", "b", "c"]) (.names ["b", "c", "a"]) false
+    = .ok [("d", .ser 4), ("b", .ser 1), ("c", .ser 2), ("a", .ser 3)] := by decide
+example : rename (S := Nat) (V := Nat) [("a", .ser 1), ("b", .ser 2), ("c", .ser 3), ("d", .ser 4)] (.names ["b", "a"]) (.names ["b", "d"]) false
+    = .ok [("c", .ser 3), ("d", .ser 1), ("b", .ser 2)] := by decide
+
+/-- **rename of one name onto an existing name that is not a source**: the source disappears, the target keeps its place in the
+dictionary and is re-bound to the source's value (the target's own old value is replaced -- it was not asked to move), every
+other binding is unchanged -/
 theorem rename_onto_existing_name (db : Box S V) (s t : String) (v : Item S V) (hs : lookup db s = some v) (hst : s ≠ t) :
     renamePairs db [(s, t)] = .ok (setKey (delKey db s) t v)
       ∧ lookup (setKey (delKey db s) t v) t = some v
       ∧ lookup (setKey (delKey db s) t v) s = none
       ∧ ∀ n, n ≠ s → n ≠ t → lookup (setKey (delKey db s) t v) n = lookup db n :=
   rename_onto_existing db s t v hs hst
-
-example : rename (S := Nat) (V := Nat) [("a", .ser 1), ("b", .ser 2), ("c", .ser 3)] (.names ["a", "b"]) (.names ["b", "z"]) false
-    = .ok [("c", .ser 3), ("z", .ser 1)] := by decide
 
 /-- **merge as a dictionary equation** (one incoming databox): every name is bound to `mergeSpec` of its old and its incoming
 binding -- a new name takes the incoming value, an existing name the strategy's result (stack: `hstack` of two series or the
